@@ -46,6 +46,7 @@ Record cattr := { cnt : option Z; nms : option nat }.     (* attributes defined 
 Record st := { heap : list dictT; attrs : cls -> cattr;
                houses : list (nat * nat * nat);            (* names['store'|'tasker'|'log'] *)
                framers : list nat;                          (* .frameNames *)
+               fhouse : list (option nat);                  (* framer.store.house (index), parallel to framers *)
                ninst : nat }.
 
 Definition init_attrs (c : cls) : cattr :=
@@ -56,7 +57,7 @@ Definition init_attrs (c : cls) : cattr :=
   | CFramer | CLogger => {| cnt := None; nms := None |}
   end.
 Definition init : st :=
-  {| heap := [[]; []; []; []; []]; attrs := init_attrs; houses := []; framers := []; ninst := 0 |}.
+  {| heap := [[]; []; []; []; []]; attrs := init_attrs; houses := []; framers := []; fhouse := []; ninst := 0 |}.
 
 Definition eff_cnt (s : st) (c : cls) : Z :=
   match cnt (attrs s c) with
@@ -76,9 +77,9 @@ Definition eff_nms (s : st) (c : cls) : nat :=
   end.
 Definition set_attr (s : st) (c : cls) (a : cattr) : st :=
   {| heap := heap s; attrs := fun c' => if cls_eqb c c' then a else attrs s c';
-     houses := houses s; framers := framers s; ninst := ninst s |}.
+     houses := houses s; framers := framers s; fhouse := fhouse s; ninst := ninst s |}.
 Definition set_heap (s : st) (h : list dictT) : st :=
-  {| heap := h; attrs := attrs s; houses := houses s; framers := framers s; ninst := ninst s |}.
+  {| heap := h; attrs := attrs s; houses := houses s; framers := framers s; fhouse := fhouse s; ninst := ninst s |}.
 
 Fixpoint upd (d : nat) (f : dictT -> dictT) (h : list dictT) : list dictT :=
   match h, d with
@@ -106,7 +107,7 @@ Fixpoint autoname (fuel : nat) (d : dictT) (nm : name) (orc : list Z) : option n
 Definition maxlen (d : dictT) : nat := fold_right (fun p m => Nat.max (length (fst p)) m) 0%nat d.
 
 Inductive namekind := NAuto | NStr (n : name) | NBad.       (* '' | explicit str | not a str *)
-Inductive result := Ok (n : name) | ErrParameter | OutOfFuel.
+Inductive result := Ok (n : name) | ErrParameter | OutOfFuel | ErrClone.
 
 (* Registrar.__init__(name, preface) for an instance of class c *)
 Definition reg (s : st) (c : cls) (nk : namekind) (pre : name) (orc : list Z) : st * result :=
@@ -116,7 +117,7 @@ Definition reg (s : st) (c : cls) (nk : namekind) (pre : name) (orc : list Z) : 
   let d := nth di (heap s) [] in
   let register nm :=
     ({| heap := upd di (dsetN nm (ninst s)) (heap s1); attrs := attrs s1; houses := houses s1;
-        framers := framers s1; ninst := S (ninst s) |}, Ok nm) in
+        framers := framers s1; fhouse := fhouse s1; ninst := S (ninst s) |}, Ok nm) in
   let auto := match autoname (S (maxlen d)) d ((match pre with [] => clsname c | _ => pre end) ++ digits k) orc with
               | Some nm => register nm
               | None => (s1, OutOfFuel)
@@ -130,6 +131,8 @@ Definition reg (s : st) (c : cls) (nk : namekind) (pre : name) (orc : list Z) : 
 
 Inductive op :=
 | Create (c : cls) (nk : namekind) (pre : name) (orc : list Z)   (* c <> CHouse *)
+| CreateFramerIn (h : nat) (nk : namekind) (pre : name) (orc : list Z)   (* Framer(store=houses[h].store, ...) *)
+| Clone (f : nat) (n : name) (orc : list Z)   (* framers[f].clone(name=n) ; n = "" -> automatic name *)
 | CreateHouse (nk : namekind) (pre : name) (orc : list Z)
 | Assign (h : nat)            (* houses[h].assignRegistries() *)
 | AssignFrame (f : nat)       (* framers[f].assignFrameRegistry() *)
@@ -140,15 +143,58 @@ Definition alloc (s : st) : st * nat := (set_heap s (heap s ++ [[]]), length (he
 Definition clear (s : st) (c : cls) : st :=
   let '(s1, d) := alloc s in set_attr s1 c {| cnt := Some 0; nms := Some d |}.
 
+(* houses[h].assignRegistries(): Names shared by reference, Counter copied (always 0) *)
+Definition assign (s : st) (abc : nat * nat * nat) : st :=
+  let '(a, b, c) := abc in
+  set_attr (set_attr (set_attr s CStore {| cnt := Some 0; nms := Some a |})
+                     CTasker {| cnt := Some 0; nms := Some b |})
+           CLog {| cnt := Some 0; nms := Some c |}.
+
+(* a new Framer: its own frame registry; ho = the house of the store it was given *)
+Definition add_framer (s : st) (ho : option nat) : st * nat :=
+  let '(s2, d) := alloc s in
+  ({| heap := heap s2; attrs := attrs s2; houses := houses s2; framers := framers s2 ++ [d];
+      fhouse := fhouse s2 ++ [ho]; ninst := ninst s2 |}, d).
+
+(* for frame in self.frameNames.values(): frame.clone(framer=clone)  ->  Frame(name=frame.name, ...) *)
+Definition clone_frames (s : st) (nms_ : list name) : st :=
+  fold_left (fun s nm => fst (reg s CFrame (NStr nm) [] [])) nms_ s.
+
 Definition step (s : st) (x : op) : st * option result :=
   match x with
   | Create c nk pre orc =>
       let '(s1, r) := reg s c nk pre orc in
       match r, c with
-      | Ok _, CFramer => let '(s2, d) := alloc s1 in
-                         ({| heap := heap s2; attrs := attrs s2; houses := houses s2;
-                             framers := framers s2 ++ [d]; ninst := ninst s2 |}, Some r)
+      | Ok _, CFramer => (fst (add_framer s1 None), Some r)
       | _, _ => (s1, Some r)
+      end
+  | CreateFramerIn h nk pre orc =>
+      let '(s1, r) := reg s CFramer nk pre orc in
+      match r with
+      | Ok _ => (fst (add_framer s1 (if Nat.ltb h (length (houses s)) then Some h else None)), Some r)
+      | _ => (s1, Some r)
+      end
+  | Clone f n orc =>
+      (* Framer.clone: FIRST self.store.house.assignRegistries(), then the duplicate check against
+         Framer.Names (now the own house's registry), then Framer(name=n, store=self.store),
+         clone.assignFrameRegistry(), and a Frame of the same name for every frame of the original *)
+      match nth_error (framers s) f, nth_error (fhouse s) f with
+      | Some fd, Some (Some h) =>
+          match nth_error (houses s) h with
+          | Some abc =>
+              let s1 := assign s abc in
+              if (match n with [] => false | _ => true end) && dmemN n (nth (eff_nms s1 CFramer) (heap s1) [])
+              then (s1, Some ErrClone)
+              else let '(s2, r) := reg s1 CFramer (match n with [] => NAuto | _ => NStr n end) [] orc in
+                   match r with
+                   | Ok _ => let '(s3, d) := add_framer s2 (Some h) in
+                             let s4 := set_attr s3 CFrame {| cnt := Some 0; nms := Some d |} in
+                             (clone_frames s4 (map fst (nth fd (heap s4) [])), Some r)
+                   | _ => (s2, Some r)
+                   end
+          | None => (s, None)
+          end
+      | _, _ => (s, None)
       end
   | CreateHouse nk pre orc =>
       let '(s1, r) := reg s CHouse nk pre orc in
@@ -159,17 +205,14 @@ Definition step (s : st) (x : op) : st * option result :=
           let '(s5, r2) := reg s4 CStore (NStr nm) [] [] in
           match r2 with
           | Ok _ => ({| heap := heap s5; attrs := attrs s5; houses := houses s5 ++ [(a, b, c)];
-                        framers := framers s5; ninst := ninst s5 |}, Some r)
+                        framers := framers s5; fhouse := fhouse s5; ninst := ninst s5 |}, Some r)
           | _ => (s5, Some r2)
           end
       | _ => (s1, Some r)
       end
   | Assign h =>
       match nth_error (houses s) h with
-      | Some (a, b, c) =>
-          (set_attr (set_attr (set_attr s CStore {| cnt := Some 0; nms := Some a |})
-                              CTasker {| cnt := Some 0; nms := Some b |})
-                    CLog {| cnt := Some 0; nms := Some c |}, None)
+      | Some abc => (assign s abc, None)
       | None => (s, None)
       end
   | AssignFrame f =>
@@ -188,7 +231,8 @@ Fixpoint run (s : st) (ops : list op) : st :=
 Definition all_cls := [CHouse; CStore; CTasker; CFramer; CLogger; CLog; CFrame].
 Definition enc_name (n : name) : list Z := Z.of_nat (length n) :: n.
 Definition enc_result (r : option result) : list Z :=
-  match r with None => [0] | Some (Ok n) => 1 :: enc_name n | Some ErrParameter => [2] | Some OutOfFuel => [3] end.
+  match r with None => [0] | Some (Ok n) => 1 :: enc_name n | Some ErrParameter => [2] | Some OutOfFuel => [3]
+  | Some ErrClone => [4] end.
 Definition obs (s : st) : list Z :=
   flat_map (fun c => [Z.of_nat (eff_nms s c); eff_cnt s c]) all_cls ++
   Z.of_nat (length (heap s)) :: flat_map (fun d => Z.of_nat (length d) :: flat_map (fun p => enc_name (fst p)) d) (heap s).
